@@ -131,6 +131,7 @@ def run(ctx):
                 "content with an output or backup name; distinct by hash")
     tmp = tempfile.mkdtemp(prefix="simfile-verif-c05-")
     reqs, metas = [], []
+    dreqs, dmetas = [], []
     try:
         for i in range(ctx.scale(700, 6000)):
             ext = rng.choice([".sm", ".ssc"])
@@ -191,13 +192,15 @@ def run(ctx):
                     res.violation(case, "the loaded simfile is not the decoded text's", impl=objs.dump(sf0)["props"][:3]); w.close(); continue
             # mutate -----------------------------------------------------------------------------------
             del w.rec.log[:]; w.rec.wcalls = 0
-            entry = [None]; exit_ = [None]; ok_domain = [True]
+            entry = [None]; exit_ = [None]; ok_domain = [True]; texts = [None, None]
             steps = rng.choice([0, 0, 1, 4, 10])
             romanise = rng.random() < .3      # the saved file may then decode under an earlier encoding of the list
             case["romanise"] = romanise
             try:
                 with simfile.mutate(cfg["input"], output_filename=cfg["output"], backup_filename=cfg["backup"], try_encodings=tries, filesystem=w.fs) as sf:
                     entry[0] = objs.dump(sf)
+                    try: texts[0] = str(sf)
+                    except Exception: texts[0] = None
                     snapshot_rng = rng.getstate()
                     edit(rng, sf, detected, steps)
                     if romanise:
@@ -212,6 +215,7 @@ def run(ctx):
                         ok_domain[0] = False
                         raise simfile.CancelMutation
                     exit_[0] = objs.dump(sf)
+                    texts[1] = str(sf)
                 outcome = "returned"
             except ValueError as e:
                 outcome = "ValueError" if not isinstance(e, UnicodeDecodeError) else "UnicodeDecodeError"
@@ -256,6 +260,23 @@ def run(ctx):
                         res.violation(case, "the backup does not parse to the simfile as it stood at block entry", impl=c01._diff(got_b, exp_b)); w.close(); continue
             except Exception as e:
                 res.violation(case, "written file does not decode/parse in the detected encoding", impl=core.exc_name(e)); w.close(); continue
+            # the data-carrying model (Model/MutateData.lean): same bytes in every file, same detected encoding, same outcome.
+            # The codecs are handed over as finite tables: how the input bytes decode under each tried encoding, and how the two
+            # serializations encode under the detected one (CPython's codecs are the trusted base for that).
+            if texts[0] is not None and texts[1] is not None and len(data) < 30000:
+                L1 = lambda b: b.decode("latin-1")
+                def enc_or_none(t, e):
+                    try: return L1(t.encode(e))
+                    except UnicodeEncodeError: return None
+                def dec_or_none(b, e):
+                    try: return b.decode(e)
+                    except UnicodeDecodeError: return None
+                codecs = [[e, {"decode": [[L1(data), dec_or_none(data, e)]],
+                               "encode": [[t, enc_or_none(t, e)] for t in dict.fromkeys([texts[0], texts[1], ""])]}] for e in dict.fromkeys(tries)]
+                dreqs.append({"op": "mutate.data", "input": cfg["input"], "output": cfg["output"], "backup": cfg["backup"], "encs": tries,
+                              "fs": [[w.path(k), L1(v)] for k, v in before.items()], "codecs": codecs, "world": ext[1:], "strict": True,
+                              "body": {"returns": exit_[0]}, "fault": None, "cut": 0})
+                dmetas.append((case, {w.path(k): L1(v) for k, v in after.items()}, detected))
             # a second mutate of the file just written: the encoding is detected afresh from the bytes on disk (it may differ
             # from the first one when the edit removed what made the earlier encodings fail), and the save obeys the same rules
             outpath = w.path(outname)
@@ -346,6 +367,14 @@ def run(ctx):
             is_orig = before.get(p) == after[p]
             if (want == "original") != is_orig and not (want != "original" and is_orig):
                 res.tie_break("mutate.run (file map)", dict(case, path=p), "changed" if not is_orig else "unchanged", want)
+    for (case, after_files, detected), m in zip(dmetas, ctx.lean.eval_sharded(dreqs)):
+        res.traces += 1; res.count("data_model_compared")
+        got_fs = {p_: b_ for p_, b_ in m["fs"]}
+        if m["outcome"] != "returned" or m["detected"] != detected or got_fs != after_files:
+            diff = sorted(p_ for p_ in set(got_fs) | set(after_files) if got_fs.get(p_) != after_files.get(p_))
+            res.tie_break("mutate.data (bytes of every file, detected encoding, outcome)", case,
+                          {"outcome": "returned", "detected": detected, "files_differing": diff},
+                          {"outcome": m["outcome"], "detected": m["detected"], "model_bytes": {p_: (got_fs.get(p_) or "")[:80] for p_ in diff[:2]}})
     res.assumptions = ["Python's codecs are the trusted base for what 'decodes' means; decode outcomes per tried encoding are inputs of the model",
                        "text-mode newline translation is not modelled: generated contents use LF only",
                        "io / PyFilesystem open-truncate-write-close semantics are trusted (call-granularity model)"]
